@@ -287,32 +287,31 @@ def hyp_campaign(col: Collector, strategy, run_case, n, seed, shrink=True, max_r
 
     per_round = n
     for rnd in range(max_rounds):
-        last = {}
+        best = {}
 
         def body(case):
             res = run_case(case)
             unknown = col.record(case, res)
             if unknown:
-                last["case"], last["viol"] = case, unknown
+                size = case_size(case)
+                if "case" not in best or size <= best["size"]:
+                    best["case"], best["viol"], best["size"] = case, unknown, size
                 raise _Fail()
 
         test = hypothesis.seed(seed * 1000 + rnd)(hyp_settings(per_round, shrink)(given(strategy)(body)))
         try:
             test()
             return
-        except _Fail:
-            col.add_violation(last["case"], last["viol"])
-        except hypothesis.errors.Flaky as e:  # pragma: no cover
-            if "case" in last:
-                col.add_violation(last["case"], last["viol"] + [{"kind": "flaky", "detail": str(e)[:300]}])
-            else:
-                raise HarnessError(f"flaky without failing case: {e}")
-        except BaseException as e:
-            # hypothesis wraps failures in its own exception groups in some paths
-            if "case" in last and _is_fail(e):
-                col.add_violation(last["case"], last["viol"])
-            else:
-                raise
+        except HarnessError:
+            raise
+        except BaseException as e:  # noqa
+            # _Fail (possibly wrapped), Flaky, or an internal shrinker error: in every case a real
+            # failing case was observed if `best` is filled - report the smallest one seen.
+            if "case" not in best:
+                if isinstance(e, (KeyboardInterrupt, SystemExit)):
+                    raise
+                raise HarnessError(f"hypothesis failed without a failing case: {type(e).__name__}: {e}") from e
+            col.add_violation(best["case"], best["viol"])
         per_round = max(n // 4, 50)
 
 
